@@ -48,6 +48,7 @@ type c3Src struct {
 	B   string `json:"b"`
 	Key string `json:"key"`
 	Ver bool   `json:"ver"`
+	Enc bool   `json:"enc"` // the copy source header spells the key percent-encoded ("/" as %2F, "?versionId=" as %3FversionId%3D)
 }
 type c3Abs struct {
 	ID     int    `json:"id"`
@@ -86,6 +87,7 @@ type c3TSrc struct {
 	Bucket string `json:"bucket"`
 	Key    string `json:"key"`
 	Ver    bool   `json:"ver"`
+	Enc    bool   `json:"enc"`
 }
 type c3Target struct {
 	Bucket string   `json:"bucket"`
@@ -217,7 +219,7 @@ func (s c3Sampler) vec(rt *ApiRoute) c3Abs {
 		v.Ver = true
 	}
 	if rt.Shape == "copy" {
-		v.Src = c3Src{B: []string{"A", "B"}[s.rnd.Intn(2)], Key: []string{"K1", "K2"}[s.rnd.Intn(2)], Ver: s.rnd.Intn(100) < 35}
+		v.Src = c3Src{B: []string{"A", "B"}[s.rnd.Intn(2)], Key: []string{"K1", "K2"}[s.rnd.Intn(2)], Ver: s.rnd.Intn(100) < 35, Enc: s.rnd.Intn(100) < 40}
 	}
 	if rt.Shape == "copy" && v.Src.B == "B" {
 		v.B = s.auth(true)
@@ -514,6 +516,7 @@ func (w *c3Worker) exec(v *c3Vec) (done bool, err error) {
 	case "AdminChangeBucketOwner":
 		t.Owner = "c3oth"
 	}
+	t.SrcEnc = v.Target.Src.Enc
 	rq := rt.Build(t)
 	roots := w.fx.dataDirs()
 	if rt.Kind == "admin" {
@@ -761,7 +764,7 @@ func C03(c *core.Ctx, replay string) {
 						for _, a := range []string{"exact", "sibling", "all", "prefix"} {
 							for _, rf := range c3ResForms {
 								add(c3Abs{Route: rt.Name, Caller: "user_nonowner", A: c3Auth{Mode: "policy", Grant: "none", Stmts: []c3Stmt{{E: e, P: p, A: a, R: rf}}},
-									B: c3PubRW, Key: "K1", Ver: rt.Ver && (len(abs)%2 == 0), Src: c3Src{B: "A", Key: "K1", Ver: len(abs)%3 == 0}})
+									B: c3PubRW, Key: "K1", Ver: rt.Ver && (len(abs)%2 == 0), Src: c3Src{B: "A", Key: "K1", Ver: len(abs)%3 == 0, Enc: rt.Shape == "copy" && len(abs)%2 == 1}})
 							}
 						}
 					}
